@@ -735,6 +735,10 @@ func IsValidFilter(filter string, forPublish bool) bool {
 		}
 	}
 
+	if forPublish {
+		return true // the share rules below apply to subscription filters only: a topic name may start with $share
+	}
+
 	prefix, hasNext := isolateParticle(filter, 0)
 	if !hasNext && strings.EqualFold(prefix, SharePrefix) {
 		return false // [MQTT-4.8.2-1]
